@@ -309,4 +309,17 @@ CHECKS = {
         assumptions=["time zone UTC", "INSERT uses the instance-wide writer (executor.ThisInstance)"],
         technique="differential property-based testing against the server's own SELECT *",
     ),
+    "C25": dict(
+        test="TestC25", level="exploration", shards=16,
+        tiers=dict(quick=dict(checks=40, timeout=600), thorough=dict(checks=3000, timeout=3000)),
+        rule="rapid write histories on a master instance (1-4 buckets, fixed and variable, all timeframes and wire types, "
+             "1-6 requests naming 1-2 buckets, possibly one fixed and one variable in the same transaction group); every "
+             "transaction group the master's ReplicationSender receives is applied to a second instance by the production "
+             "replayer (replication.NewReplayer(executor.ParseTGData, writer.WriteCSM, root)); oracle: every bucket's "
+             "all-time (and a ranged) query returns the same rows on both, variable-length times at most one resolution "
+             "step earlier on the replica; non-trivial = a variable bucket with interval > 1s, or a transaction group "
+             "mixing record types",
+        assumptions=["the network transport (gRPC stream) is not exercised: C26 covers the fan-out"],
+        technique="differential property-based testing (replica vs master)",
+    ),
 }
